@@ -1722,6 +1722,7 @@ func ruleTSCAN(p *Program, r *Reporter) {
 			break
 		}
 		var call *ssa.Call
+		resIdx := 0
 		if bo, ok := cond.(*ssa.BinOp); ok && (bo.Op == token.NEQ || bo.Op == token.EQL) {
 			isZeroConst := func(v ssa.Value) bool {
 				c, ok := v.(*ssa.Const)
@@ -1731,16 +1732,26 @@ func ruleTSCAN(p *Program, r *Reporter) {
 				// nil, or the empty string (a helper that hands back the first error text)
 				return c.IsNil() || c.Value != nil && c.Value.Kind() == constant.String && constant.StringVal(c.Value) == ""
 			}
+			var subj ssa.Value
 			if isZeroConst(bo.Y) {
-				call, _ = bo.X.(*ssa.Call)
+				subj = bo.X
 			} else if isZeroConst(bo.X) {
-				call, _ = bo.Y.(*ssa.Call)
+				subj = bo.Y
+			}
+			call, _ = subj.(*ssa.Call)
+			if ex, isEx := subj.(*ssa.Extract); isEx {
+				call, _ = ex.Tuple.(*ssa.Call)
+				resIdx = ex.Index
 			}
 			if bo.Op == token.EQL {
 				neg = !neg
 			}
 		} else if c, ok := cond.(*ssa.Call); ok {
 			call = c
+		} else if ex, ok := cond.(*ssa.Extract); ok {
+			// text, failed := firstError(results); if failed {...}
+			call, _ = ex.Tuple.(*ssa.Call)
+			resIdx = ex.Index
 		}
 		if call == nil {
 			continue
@@ -1749,7 +1760,7 @@ func ruleTSCAN(p *Program, r *Reporter) {
 		if g == nil || pkgOf(g) != "server" {
 			continue
 		}
-		pol, isScan := errorScanHelper(g, errFld)
+		pol, isScan := errorScanHelper(g, errFld, resIdx)
 		if !isScan {
 			continue
 		}
@@ -1789,10 +1800,11 @@ func ruleTSCAN(p *Program, r *Reporter) {
 // return reached from the "found" branch before the next iteration yields a
 // non-zero value and every other return the zero value (polarity true), or the
 // reverse (polarity false).
-func errorScanHelper(g *ssa.Function, errFld *types.Var) (polarity bool, ok bool) {
-	if g == nil || len(g.Blocks) == 0 || g.Signature.Results().Len() != 1 {
+func errorScanHelper(g *ssa.Function, errFld *types.Var, idx int) (polarity bool, ok bool) {
+	if g == nil || len(g.Blocks) == 0 || g.Signature.Results().Len() <= idx {
 		return false, false
 	}
+	nres := g.Signature.Results().Len()
 	isZero := func(v ssa.Value) (bool, bool) {
 		c, isC := v.(*ssa.Const)
 		if !isC {
@@ -1840,10 +1852,10 @@ func errorScanHelper(g *ssa.Function, errFld *types.Var) (polarity bool, ok bool
 		}
 		// the found branch must return directly
 		ret, isRet := bad.Instrs[len(bad.Instrs)-1].(*ssa.Return)
-		if !isRet || len(ret.Results) != 1 {
+		if !isRet || len(ret.Results) != nres {
 			continue
 		}
-		badZero, known := isZero(ret.Results[0])
+		badZero, known := isZero(ret.Results[idx])
 		if !known {
 			continue
 		}
@@ -1856,7 +1868,7 @@ func errorScanHelper(g *ssa.Function, errFld *types.Var) (polarity bool, ok bool
 				continue
 			}
 			n++
-			z, known := isZero(r2.Results[0])
+			z, known := isZero(r2.Results[idx])
 			if !known || z == badZero {
 				consistent = false
 			}
